@@ -2190,7 +2190,12 @@ class CIMInstanceName(_CIMComparisonMixin, SlottedPickleMixin):
 
         def case_sorted(keys):
             """Return the keys in the correct order for the format."""
-            return sorted([case(k) for k in keys])
+            if format == 'canonical':
+                # Key names are compared case-insensitively by means of
+                # casefold() (see NocaseDict), so that is what makes the
+                # canonical form of equal paths identical (e.g. for 'ß').
+                return sorted([k.casefold() for k in keys])
+            return sorted(keys)
 
         if format not in ('standard', 'canonical', 'cimobject', 'historical'):
             raise ValueError(
